@@ -147,8 +147,11 @@ class LinuxBootLogin(machine.Initializer, LinuxBoot):
             if self._boot_start is None:
                 self._boot_start = time.monotonic()
 
+            # The boot may have been started (and the timer with it) by an
+            # earlier initializer, e.g. AskfirstInitializer: only wait for
+            # what is left of the boot timeout.
             self.ch.read_until_prompt(
-                prompt=self.login_prompt, timeout=self.boot_timeout
+                prompt=self.login_prompt, timeout=self._timeout_remaining()
             )
 
             # On purpose do not login immediately as we may get some
